@@ -109,6 +109,15 @@ class SccLine:
 
     debug = str(self.time_code) + "\t"
 
+    # a control code at the start of the line is redundant only if the previous line ended in the preceding frame
+
+    first_frame = self.time_code.to_frames()
+
+    if context.next_frame is not None and first_frame > context.next_frame:
+      context.previous_word = None
+
+    context.next_frame = first_frame + len(self.scc_words)
+
     for scc_word in self.scc_words:
 
       if context.previous_word is not None and context.previous_word.value == scc_word.value and context.previous_word.is_code():
